@@ -5,6 +5,8 @@ from harness.asmcheck import Case, framed
 
 
 def gates(ctx, thorough):
+    if tlc.skip_gates():
+        return
     recs, wall = tlc.export_parts("MC_M6809", 8)
     pairs = 0
     for r in recs:
